@@ -38,6 +38,25 @@ Theorem c08_errors_cause_any x ops :
   e_Cause (nest (Some x) ops) = Some (cause x) /\ is_root (cause x) = true.
 Proof. split; [exact (nest_any_cause x ops)|exact (cause_is_root x)]. Qed.
 
+(* The root may itself be a wrapper -- *net.OpError, *os.PathError, what fmt.Errorf("%w") or
+   errors.Join return, any type with Unwrap() error / Unwrap() []error (returning another error, nil
+   or itself): as long as it has no Cause method it IS the root cause, errors.Cause never digs into
+   the transport's own error (RootU id m kind inner; kind and inner are what Unwrap yields). *)
+Theorem c08_errors_cause_wrapper_root id m kind inner ops :
+  e_Cause (nest (Some (RootU id m kind inner)) ops) = Some (RootU id m kind inner).
+Proof. exact (nest_rootU_cause id m kind inner ops). Qed.
+
+(* In general: for every nesting over any error WITHOUT a Cause method, cause = that error. *)
+Theorem c08_errors_cause_no_causer r ops :
+  is_root r = true -> e_Cause (nest (Some r) ops) = Some r.
+Proof. intros H. rewrite (nest_any_cause r ops). now rewrite (is_root_cause r H). Qed.
+
+(* A foreign type that implements the documented causer interface (Cause() error) is unwound,
+   like the package's own layers: the cause is the cause of what its Cause method returns. *)
+Theorem c08_errors_cause_foreign_causer id m inner ops :
+  e_Cause (nest (Some (RootC id m inner)) ops) = Some (cause inner) /\ is_root (cause inner) = true.
+Proof. split; [exact (nest_rootC_cause id m inner ops)|exact (cause_is_root inner)]. Qed.
+
 (* Error() of the result is the messages of the layers, outermost first, then the root's own
    text, joined by ": " (WithStack contributes no message). *)
 Theorem c08_errors_message id m ops :
@@ -416,6 +435,9 @@ Proof. vm_compute. auto. Qed.
 
 Print Assumptions c08_errors_cause.
 Print Assumptions c08_errors_cause_any.
+Print Assumptions c08_errors_cause_wrapper_root.
+Print Assumptions c08_errors_cause_no_causer.
+Print Assumptions c08_errors_cause_foreign_causer.
 Print Assumptions c08_errors_message.
 Print Assumptions c08_errors_message_any.
 Print Assumptions c08_errors_nil.
